@@ -197,3 +197,25 @@ Proof.
 Qed.
 
 End Laws3.
+
+(** Whatever the gzip layer accepts fits the block buffer. *)
+Lemma gz_body_capacity : forall (inflate : list Z -> option (list Z * list Z)) (crc32 : list Z -> Z) f bdy acc out,
+  gz_body inflate crc32 f bdy acc = Some out -> zlen out <= bgzf_MaxBlockSize.
+Proof.
+  intros inflate crc32 f. induction f as [|f IH]; intros bdy acc out H; [discriminate|].
+  cbn [gz_body] in H.
+  destruct (inflate bdy) as [[d1 rest]|]; [|discriminate].
+  do 8 (destruct rest as [|? rest]; [discriminate|]).
+  match type of H with (if ?c then _ else _) = _ => destruct c; [discriminate|] end.
+  destruct (bgzf_MaxBlockSize <? zlen (acc ++ d1)) eqn:E.
+  - change (bgzf_readToEOF_guard =? bgzf_MaxBlockSize) with true in H. discriminate.
+  - apply Z.ltb_ge in E. destruct rest as [|x rest'].
+    + injection H as H; subst. exact E.
+    + destruct (gz_header crc32 (x :: rest')) as [[ex b2]| |]; try discriminate. eapply IH; eauto.
+Qed.
+
+Lemma capacity_gen :
+  bgzf_readToEOF_guard = bgzf_MaxBlockSize /\
+  forall (inflate : list Z -> option (list Z * list Z)) (crc32 : list Z -> Z) f bdy acc out,
+    gz_body inflate crc32 f bdy acc = Some out -> zlen out <= bgzf_MaxBlockSize.
+Proof. split; [reflexivity | exact gz_body_capacity]. Qed.
